@@ -392,20 +392,7 @@ func (m *Machine) unop(instr *ssa.UnOp, x Value) Value {
 		return m.C.BNot(m.asTerm(x))
 	case token.ARROW:
 		ch, _ := x.(*Chan)
-		if ch == nil {
-			m.unsupported("receive from nil channel (blocks forever)")
-		}
-		var v Value
-		ok := false
-		if len(ch.Buf) > 0 {
-			v = ch.Buf[0]
-			ch.Buf = ch.Buf[1:]
-			ok = true
-		} else if ch.Closed {
-			v = m.zero(ch.Elem)
-		} else {
-			m.unsupported("blocking channel receive")
-		}
+		v, ok := m.chanRecv(ch)
 		if instr.CommaOk {
 			return Tuple{v, m.C.Bool(ok)}
 		}
